@@ -88,6 +88,8 @@ def judge(t):
     for a in attempts:
         if a['ok']:
             for (m, ast, mi) in a['mods']:
+                if m in winners:
+                    continue          # the copy taken first stays (a later file holding the module again does not replace it)
                 winners[m] = (a, ast)
                 closure.extend(mi.imported)
     for n in sorted(set(closure)):
@@ -117,6 +119,19 @@ def judge(t):
                     last_ast = ast2
         if c.kw.get('ast') is not ast and c.kw.get('ast') != ast and not multi:
             V('C08.3-source-order', 'code for %s was generated from a tree that did not come from the first source supplying it (source %d)' % (c.mib, a['src']), what='wrong-tree')
+        # 3d. a module that was looked up by its own name and supplied by a source stays that source's: a copy arriving
+        # later in the same call as a by-stander of a file fetched for another module (from the same or a later source)
+        # does not replace the text that is compiled
+        own = [(b, ast2) for b in attempts if b['ok'] and b['name'] == c.mib for (m, ast2, _mi) in b['mods'] if m == c.mib]
+        if own:
+            b0, ast0 = own[0]
+            # (judged only when the later copy comes from a source further down the list: then "the first source that holds
+            # a module supplies the text" is unambiguous)
+            later = [b for b in attempts if b['ok'] and b is not b0 and attempts.index(b) > attempts.index(b0) and b['src'] > b0['src']
+                     and any(m == c.mib for (m, _a, _mi) in b['mods'])]
+            if later and c.kw.get('ast') is not ast0 and c.kw.get('ast') != ast0:
+                V('C08.3-source-order', 'source %d supplied %s when it was looked up; the code was generated from a copy that arrived later in the file fetched for %s from source %d' % (
+                    b0['src'], c.mib, later[-1]['name'], later[-1]['src']), what='replaced-by-later-copy')
     # 3c. ground truth: with nothing injected, the first source that (by the scenario) holds a healthy copy supplies it
     if not t.world.fired and not scn.get('inject') and not scn.get('alias') and not scn.get('second') and t.second is None:
         for name, al in sorted(byname.items()):
